@@ -186,14 +186,67 @@ theorem C14_no_answer (env : Env) (s : DState) (r : Req)
   · rfl
 
 /-- **Membership changes between requests.** In any history of tree operations interleaved with carriers
-(children joining / leaving, parent changes, session loss in between), what is written for each carrier is
-`handle` in the tree state reached by the tree operations before it — so all theorems above apply to every
-request of every history, each with the children *at that time*. -/
-theorem C14_history (env : Env) (h : List SOp) (e : Req × List Out) (he : e ∈ (runS env h).2) :
+(children joining / leaving, parent changes, session loss in between — and adds in progress, see below), what is
+written for each carrier is `handle` in the tree state reached by the tree operations before it — so all theorems
+above apply to every request of every history, each with the children *at that time*. -/
+theorem C14_history (env : Env) (h : List SOp) (e : Req × List Out) (he : e ∈ (runS env h).log) :
     ∃ h', h' <+: h ∧ e.2 = handle env (run (treeOps h')) e.1 := by
   rcases history_aux env h [] e he with h1 | ⟨h', hp, heq⟩
-  · simp [runS] at h1
-  · exact ⟨h', hp, by simpa using heq⟩
+  · simp [runS, SState.init] at h1
+  · refine ⟨h', hp, ?_⟩
+    rw [heq, List.nil_append, runS_state]
+
+/-- **A child stays a child until its connection is closed.** Whatever the next tree operation is: a connection
+listed as a child that is still registered (`distributed_peers`) afterwards is still listed as a child. Entries leave
+`children` only through the `CLOSED` event of their connection (`_remove_child` is called from nowhere else; `reset`
+and the refusals disconnect). -/
+theorem C14_child_until_closed (ops : List Op) (op : Op) (c : ConnId) (hc : c ∈ (run ops).children)
+    (hl : c ∈ (run (ops ++ [op])).live) : c ∈ (run (ops ++ [op])).children := by
+  rw [run_append] at hl ⊢
+  exact step_stays (run ops) op (run_inv ops) c hc hl
+
+/-- **"Current child", observably.** A registered distributed connection to which a `DistributedBranchLevel` has been
+written (`toldL c ≠ none`) is listed as a child — the library writes branch levels to children only, and
+`children.append` precedes the write in `_add_child`. Hence (with `C14_exactly_once`) every connection that has been
+sent our branch level and has not been closed receives each foreign search carrier exactly once. This is the reading
+of "current child" the monitor of `props/c14.py` evaluates on what the remote ends see. -/
+theorem C14_told_is_child (env : Env) (ops : List Op) (c : ConnId) (hl : c ∈ (run ops).live)
+    (ht : (run ops).toldL c ≠ none) :
+    c ∈ (run ops).children ∧
+    ∀ r : Req, (run ops).session ≠ some r.user → r.IsSearch →
+      (handle env (run ops) r).countP (Out.toConn c) = 1 := by
+  have hc := run_tc ops c hl ht
+  refine ⟨hc, fun r hown hs => ?_⟩
+  rw [C14_exactly_once env ops r hown hs c, if_pos hc]
+
+/-- **Carriers handled while a child is being added.** In any small-step history — tree operations, carriers,
+`addBegin n` (a peer connects, `_add_child` runs up to its suspension in the sends of level and root) and `addEnd c`
+(it resumes) in any order and number — a connection whose add is in progress is registered and listed as a child,
+and every foreign search carrier handled at that point is passed on to it exactly once. -/
+theorem C14_adding_served (env : Env) (h : List SOp) (c : ConnId) (hc : c ∈ (runS env h).adding) :
+    c ∈ (runS env h).d.live ∧ c ∈ (runS env h).d.children ∧
+    ∀ r : Req, (runS env h).d.session ≠ some r.user → r.IsSearch →
+      (handle env (runS env h).d r).countP (Out.toConn c) = 1 := by
+  have hok := runS_addingOK env h c hc
+  refine ⟨hok.1, hok.2, fun r hown hs => ?_⟩
+  have hch := hok.2
+  rw [runS_state] at hown hch ⊢
+  rw [C14_exactly_once env (treeOps h) r hown hs c, if_pos hch]
+
+/-- **`C14_fanout_exact` over histories with adds in progress.** For every carrier `e.1` logged by a small-step
+history there is the prefix `h'` handled before it such that: what was written is `handle` in the tree state of
+`h'`; if the carrier is a foreign search, the forwards are exactly one frame per entry of `children` of that state,
+fields preserved; and `children` of that state contains every connection whose add was in progress then. -/
+theorem C14_fanout_exact_suspended (env : Env) (h : List SOp) (e : Req × List Out) (he : e ∈ (runS env h).log) :
+    ∃ h', h' <+: h ∧ e.2 = handle env (runS env h').d e.1 ∧
+      ((runS env h').d.session ≠ some e.1.user → e.1.IsSearch →
+        forward (runS env h').d e.1 =
+          (runS env h').d.children.map (fun c => Out.fwd c e.1.outUnknown e.1.user e.1.ticket e.1.query)) ∧
+      ∀ c, c ∈ (runS env h').adding → c ∈ (runS env h').d.children := by
+  rcases history_aux env h [] e he with h1 | ⟨h', hp, heq⟩
+  · simp [runS, SState.init] at h1
+  · refine ⟨h', hp, by simpa using heq, fun hown hs => forward_foreign _ _ hown hs,
+      fun c hc => (runS_addingOK env h' c hc).2⟩
 
 /-! Non-vacuity. A reachable state with a session (user 0), a parent (connection 2, user 3), two children
 (connections 0 and 1, users 1 and 2) and a candidate (connection 3, user 4: proposed after the parent was
@@ -218,5 +271,19 @@ example : handle demoEnv (run (demo ++ [.closed 0])) ⟨.distributed 49, 5, 80, 
     [.fwd 1 49 5 80 "rock", .reply 5 80 0 ["a"] ["b"]] := by decide
 example : (⟨.distributed 49, 5, 77, "rock"⟩ : Req).IsSearch ∧ demoEnv.hasMatch 5 "rock" ∧
     ¬ (⟨.legacy 4 1, 5, 77, "rock"⟩ : Req).IsSearch := by decide
+
+/-! A small-step history: session, child 0, then user 2 connects (connection 1) and its add is suspended; the server's
+search handled meanwhile goes to both; the connection of the suspended add is closed (e.g. write time-out): the next
+search goes to child 0 only. -/
+def demoS : List SOp :=
+  [.tree (.sessionInit 0), .tree (.initialized 1 false), .addBegin 2, .search ⟨.server 3 49, 5, 77, "rock"⟩,
+   .tree (.closed 1), .search ⟨.server 3 49, 5, 78, "rock"⟩, .addEnd 1]
+
+example : (runS demoEnv (demoS.take 3)).adding = [1] ∧ (runS demoEnv (demoS.take 3)).d.children = [0, 1] ∧
+    (runS demoEnv (demoS.take 3)).d.toldL 1 = some 0 := by decide
+example : (runS demoEnv demoS).log =
+    [(⟨.server 3 49, 5, 77, "rock"⟩, [.fwd 0 49 5 77 "rock", .fwd 1 49 5 77 "rock", .reply 5 77 0 ["a"] ["b"]]),
+     (⟨.server 3 49, 5, 78, "rock"⟩, [.fwd 0 49 5 78 "rock", .reply 5 78 0 ["a"] ["b"]])] ∧
+    (runS demoEnv demoS).adding = [] := by decide
 
 end AioslskVerif.C14
